@@ -404,4 +404,69 @@ theorem processFrom_split (dt : ℝ) (base : Info ℝ) : ∀ (pre done : ModStor
 
 end Store
 
+/-! ### linked parameters, readers, witnesses' building blocks -/
+
+theorem Parameter.linked_value {τ : Type} (tw : Tweenable ℝ τ) (p : Parameter ℝ τ) (id : ℕ) (m : Mapping ℝ τ)
+    (dt : ℝ) (info : Info ℝ) (v : ℝ) (hs : p.state = .idle (.fromModulator id m)) (hst : p.stagnant = false)
+    (hv : info.modulator id = some v) :
+    (p.update tw dt info).1.raw = m.map tw v ∧ (p.update tw dt info).1.state = p.state
+      ∧ (p.update tw dt info).1.stagnant = false := by
+  unfold Parameter.update
+  simp only [hst, Bool.false_eq_true, if_false]
+  unfold Parameter.updateTween
+  simp only [hs]
+  unfold Parameter.calcRaw
+  simp only [Value.rawValue, hv, Option.map_some]
+  exact ⟨trivial, trivial, trivial⟩
+
+
+theorem Parameter.linked_from_new {τ : Type} (id : ℕ) (m : Mapping ℝ τ) (d : τ) :
+    (Parameter.new (.fromModulator id m) d : Parameter ℝ τ).state = .idle (.fromModulator id m)
+      ∧ (Parameter.new (.fromModulator id m) d : Parameter ℝ τ).stagnant = false
+      ∧ (Parameter.new (.fromModulator id m) d : Parameter ℝ τ).raw = d := by
+  simp [Parameter.new, Value.isFixed]
+
+
+/-- what one reader sees: a reader updated with the `Info` of a later stage -/
+theorem linked_reader {μ : Type} (ops : ModOps μ ℝ) (base : Info ℝ) (mods' : ModStore μ) (dt : ℝ)
+    (ps : List (Reader ℝ)) (i : ℕ) (tw : Tweenable ℝ ℝ) (p : Parameter ℝ ℝ) (id : ℕ) (m : Mapping ℝ ℝ) (v : ℝ)
+    (hr : ps[i]? = some (tw, p)) (hs : p.state = .idle (.fromModulator id m)) (hst : p.stagnant = false)
+    (hv : ModStore.valueOf ops mods' id = some v) :
+    ∃ p', (updateReaders dt (readerInfo ops base mods') ps)[i]? = some (tw, p') ∧ p'.raw = m.map tw v := by
+  refine ⟨(p.update tw dt (readerInfo ops base mods')).1, ?_, ?_⟩
+  · unfold updateReaders; rw [List.getElem?_map, hr]; rfl
+  · exact (Parameter.linked_value tw p id m dt _ v hs hst (by simpa [readerInfo] using hv)).1
+
+
+theorem modOps_update_lfo (l : Lfo ℝ) (dt : ℝ) (info : Info ℝ) :
+    (Mod.ops : ModOps (Mod ℝ) ℝ).update (.lfo l) dt info = .lfo (l.update dt info) := rfl
+theorem modOps_update_tweener (t : Tweener ℝ) (dt : ℝ) (info : Info ℝ) :
+    (Mod.ops : ModOps (Mod ℝ) ℝ).update (.tweener t) dt info = .tweener (t.update dt info) := rfl
+theorem modOps_value_lfo (l : Lfo ℝ) : (Mod.ops : ModOps (Mod ℝ) ℝ).value (.lfo l) = l.value := rfl
+theorem modOps_value_tweener (t : Tweener ℝ) : (Mod.ops : ModOps (Mod ℝ) ℝ).value (.tweener t) = t.value := rfl
+
+theorem valueOf_cons_ne {μ : Type} (ops : ModOps μ ℝ) (k : ℕ) (m : μ) (rest : ModStore μ) (id : ℕ) (h : k ≠ id) :
+    ModStore.valueOf ops ((k, m) :: rest) id = ModStore.valueOf ops rest id := by
+  simp [ModStore.valueOf, h]
+
+/-- the identity mapping of [0, 1] -/
+noncomputable def idMapping : Mapping ℝ ℝ := ⟨0, 1, 0, 1, .linear⟩
+/-- an LFO that outputs exactly its offset (amplitude 0), the offset linked to modulator `src` -/
+noncomputable def followerLfo (src : ℕ) (m : Mapping ℝ ℝ) : Lfo ℝ :=
+  Lfo.new ⟨.sine, .fixed 0, .fixed 0, .fromModulator src m, 0⟩
+/-- a tweener half-way through nothing yet: going 0 → 1 linearly in one second, at time 0 -/
+noncomputable def risingTweener : Tweener ℝ := (Tweener.new 0).set 1 ⟨.immediate, 1000000000, .linear⟩
+
+theorem followerLfo_update (src : ℕ) (m : Mapping ℝ ℝ) (dt : ℝ) (info : Info ℝ) (v : ℝ)
+    (hv : info.modulator src = some v) : ((followerLfo src m).update dt info).value = m.map64 v := by
+  rw [Lfo.update_value]
+  have hoff := (Parameter.linked_value tw64 (Parameter.new (.fromModulator src m) (0.0 : ℝ)) src m dt info v
+    (Parameter.linked_from_new src m _).1 (Parameter.linked_from_new src m _).2.1 hv).1
+  have hamp : ((followerLfo src m).update dt info).amplitude.raw = 0 := by
+    simp [followerLfo, Lfo.update, Lfo.new, Parameter.new, Parameter.update, Value.isFixed]
+  have hoff' : ((followerLfo src m).update dt info).offset.raw = m.map64 v := by
+    simpa [followerLfo, Lfo.update, Lfo.new, Mapping.map64] using hoff
+  rw [hamp, hoff']; ring
+
+
 end K
